@@ -107,13 +107,24 @@ CLAIMED.update({
             'DESIGN.md section 6 C17'),
 })
 
+CLAIMED.update({
+    'C01': ('other', 'operation laws over LLVM IR: inferred size/result laws of internal helpers (all exits agree modulo path '
+                     'equalities; checked induction variables for loops) composed up to the public operations and compared '
+                     'with std::vector\'s specified count and returned position',
+            'Structural clauses only. Decided on every normal-return path of every public modifier, constructor and assignment in '
+            'every corpus configuration: size() after the call is std::vector\'s specified count (R01.1), the returned '
+            'iterator/reference is the specified position relative to data() after the call (R01.2), at() returns data()[i] exactly '
+            'where i < size() is established and raises where it is refuted (R01.3). Element VALUES and their order over histories '
+            'are run-time data and are NOT decided: that part of the property is outside static analysis.',
+            'Trusts clang 14 IR lowering; the standard library\'s copy loops return what the standard specifies; pointer differences '
+            'within one array are exact multiples of the element size; the probe corpus as the set of instantiations.',
+            'DESIGN.md section 10.8'),
+})
+
 NOT_APPLICABLE = {
-    'C01': 'Whole-history value equivalence with std::vector quantifies over run-time element values, positions and counts; '
-           'deciding it needs execution or a solver over index arithmetic, both outside static analysis. Its shape-level '
-           'clauses (accessors are data()[i], iterators span data()..data()+size()) are decided under C02/C16.',
 }
 
-PENDING = ['C02', 'C03', 'C04', 'C05', 'C06', 'C07', 'C08', 'C09', 'C10', 'C11', 'C12', 'C13', 'C14', 'C15',
+PENDING = ['C01', 'C02', 'C03', 'C04', 'C05', 'C06', 'C07', 'C08', 'C09', 'C10', 'C11', 'C12', 'C13', 'C14', 'C15',
            'C16', 'C17', 'C18', 'C20']
 
 
@@ -157,7 +168,7 @@ def main():
              'kind_free_text': 'parsers for README brief, GDB pretty-printer (python ast) and natvis (xml)'},
             {'name': 'svconst', 'path': 'plugin/svconst.cc', 'serves_properties': ['C08'],
              'kind_free_text': 'clang 14 AST plugin: reachability under std::is_constant_evaluated() over instantiated templates'},
-            {'name': 'svir', 'path': 'svlib/sym.py', 'serves_properties': ['C02', 'C03', 'C04', 'C05', 'C06', 'C07', 'C09', 'C10', 'C11', 'C12', 'C14', 'C15', 'C16', 'C18'],
+            {'name': 'svir', 'path': 'svlib/sym.py', 'serves_properties': ['C01', 'C02', 'C03', 'C04', 'C05', 'C06', 'C07', 'C09', 'C10', 'C11', 'C12', 'C13', 'C14', 'C15', 'C16', 'C17', 'C18'],
              'kind_free_text': 'LLVM-IR path/typestate analyser over instantiated probe TUs'},
         ],
         'checks': checks,
